@@ -435,16 +435,19 @@ Proof.
   assert (Hg : rv_get v1 = rv_get v2).
   { destruct (rv_get v1) as [b1|], (rv_get v2) as [b2|]; try done.
     - apply le64f_app_inj in H as [_ ->]. done. }
-  destruct v1 as [c1 vc1 e1 [t1 i1] rf1], v2 as [c2 vc2 e2 [t2 i2] rf2]. simpl in *.
-  subst. unfold rv_get in Hg. simpl in Hg.
-  destruct r1 as [val1 ts1 tomb1], r2 as [val2 ts2 tomb2]. simpl in *. subst.
-  unfold lww_get in Hg. simpl in Hg.
+  clear H Ht1 Hr1 Ht2 Hr2.
+  destruct v1 as [c1 vc1 e1 [t1 i1] rf1], v2 as [c2 vc2 e2 [t2 i2] rf2].
+  cbn [rv_crdt rv_vc rv_exp rv_ts rv_rf st_time st_rid] in *.
+  subst. unfold rv_get in Hg. cbn [rv_crdt] in Hg.
+  destruct r1 as [val1 ts1 tomb1], r2 as [val2 ts2 tomb2].
+  cbn [lw_val lw_ts lw_tomb] in *. subst.
+  unfold lww_get in Hg. cbn [lw_val lw_tomb] in Hg.
   assert (val1 = val2 ∧ tomb1 = tomb2) as [-> ->]; [|reflexivity].
-  destruct tomb1, tomb2; simpl in Hg.
-  - split; [|done]. destruct Htomb1 as [-> _]; [done|]. destruct Htomb2 as [-> _]; done.
-  - exfalso. subst val2. destruct Htomb2 as [_ Hx]. by discriminate Hx.
-  - exfalso. subst val1. destruct Htomb1 as [_ Hx]. by discriminate Hx.
-  - done.
+  destruct tomb1, tomb2.
+  - by rewrite (proj1 Htomb1 eq_refl), (proj1 Htomb2 eq_refl).
+  - exfalso. pose proof (proj2 Htomb2 (eq_sym Hg)). discriminate.
+  - exfalso. pose proof (proj2 Htomb1 Hg). discriminate.
+  - by split.
 Qed.
 
 Lemma Permutation_map_inj_on {A B} (f : A → B) (l1 : list A) : ∀ l2,
